@@ -2941,14 +2941,19 @@ impl<'de, 'e> de::Deserializer<'de> for YamlDeserializer<'de, 'e> {
             where
                 T: de::DeserializeSeed<'de>,
             {
-                seed.deserialize(YamlDeserializer::new(&mut *self.replay, self.cfg))
+                let value = seed.deserialize(YamlDeserializer::new(&mut *self.replay, self.cfg))?;
+                self.expect_payload_consumed()?;
+                Ok(value)
             }
 
             fn tuple_variant<Vv>(mut self, len: usize, visitor: Vv) -> Result<Vv::Value, Error>
             where
                 Vv: Visitor<'de>,
             {
-                YamlDeserializer::new(&mut *self.replay, self.cfg).deserialize_tuple(len, visitor)
+                let value = YamlDeserializer::new(&mut *self.replay, self.cfg)
+                    .deserialize_tuple(len, visitor)?;
+                self.expect_payload_consumed()?;
+                Ok(value)
             }
 
             fn struct_variant<Vv>(
@@ -2959,8 +2964,23 @@ impl<'de, 'e> de::Deserializer<'de> for YamlDeserializer<'de, 'e> {
             where
                 Vv: Visitor<'de>,
             {
-                YamlDeserializer::new(&mut *self.replay, self.cfg)
-                    .deserialize_struct("", fields, visitor)
+                let value = YamlDeserializer::new(&mut *self.replay, self.cfg)
+                    .deserialize_struct("", fields, visitor)?;
+                self.expect_payload_consumed()?;
+                Ok(value)
+            }
+        }
+
+        impl<'de> TaggedVA<'de> {
+            /// The replayed payload of `!Variant payload` must be consumed entirely: surplus
+            /// elements (e.g. a third item for a two-element tuple variant) are an error, never
+            /// silently dropped.
+            fn expect_payload_consumed(&mut self) -> Result<(), Error> {
+                match self.replay.peek()? {
+                    None => Ok(()),
+                    Some(ev) => Err(Error::unexpected("end of tagged enum variant payload")
+                        .with_location(ev.location())),
+                }
             }
         }
 
